@@ -28,7 +28,7 @@ from ..pool import WorkerDied
 ID = "C28"
 LEVEL = "exploration"
 BUDGET = {"quick": 20, "thorough": 240}
-FLOOR = {"quick": 150, "thorough": 250}
+FLOOR = {"quick": 400, "thorough": 600}
 RULE = ("per case one function group and a batch of 48 inputs: Unicode strings (identifier styles, casing "
         "special cases such as sharp s / dotted I / final sigma / Kelvin sign, combining marks, all 25 "
         "White_Space code points and look-alikes that are not White_Space), delimiters and substrings "
@@ -503,7 +503,13 @@ def judge_substr(it, out, R):
         if expi is None:
             R.skip("substr:ci_foldings_disagree")
         elif got is not expi:
-            R.bad("%s:ci:%s:%s" % (name, "false_negative" if expi else "false_positive", asc),
+            if expi and any(c in "\u03a3\u03c3\u03c2" for c in s + p):
+                vc = "sigma"
+            elif not expi and len(s) < len(p):
+                vc = "value_has_fewer_chars_than_substring"
+            else:
+                vc = asc
+            R.bad("%s:ci:%s:%s" % (name, "false_negative" if expi else "false_positive", vc),
                   {"law": "%s(s, p, case_sensitive: false) == %s after case folding" % (name, name), "s": ascii(s),
                    "p": ascii(p), "expected": expi, "got": repr(got)})
         else:
